@@ -20,9 +20,9 @@ TNext ==
   /\ l' = l + 1
   /\ \/ Ev.ev = "reset" /\ PReset(Ev.conf, Ev.imgs)
      \/ Ev.ev = "env" /\ PEnv
-     \/ Ev.ev = "begin" /\ PBegin(Ev.mode, ToSet(Ev.tags), ToSet(Ev.repos))
+     \/ Ev.ev = "begin" /\ PBegin(Ev.mode, SeqSet(Ev.tags), SeqSet(Ev.repos))
      \/ Ev.ev = "tagput" /\ PTagPut(<<Ev.reg, Ev.repo, Ev.tag>>, Ev.img, Ev.complete)
-     \/ Ev.ev = "end" /\ PEnd(Ev.mode, Ev.exit, ToSet(Ev.tags), ToSet(Ev.repos), ToSet(Ev.lost), Ev.nwr, Ev.nmut)
+     \/ Ev.ev = "end" /\ PEnd(Ev.mode, Ev.exit, SeqSet(Ev.tags), SeqSet(Ev.repos), SeqSet(Ev.lost), Ev.nwr, Ev.nmut)
 TSpec == TInit /\ [][TNext]_<<pvars, l>>
 HW == TLCSet(1, IF TLCGet(1) > l THEN TLCGet(1) ELSE l)
 Accepted == PrintT(<<"HIGHWATER", TLCGet(1), Len(Log)>>)
